@@ -188,6 +188,8 @@ BANNERS = [b"SSH-2.0-\xff\xfe\xfd", b"SSH-1.0-old", b"SSH-2.0", b"NOTSSH", b"SSH
 
 
 def fuzz_session(victim, index, kind, seed, kex=None, banner=None, pk=False):
+    # pk: False = classic client + password; True = ServiceRequestingTransport + publickey;
+    #     "ki" = classic client + keyboard-interactive; "ki-srt" = ServiceRequestingTransport + keyboard-interactive
     """One scripted session; the attacker's ``index``-th outgoing packet is mutated with ``kind``.
     Returns (events, mutated_type) where events = [(where, exception)] seen on the victim side."""
     import random
@@ -201,7 +203,7 @@ def fuzz_session(victim, index, kind, seed, kex=None, banner=None, pk=False):
     kw = {}
     if kex:
         kw["disabled_algorithms"] = {"kex": kex}
-    if pk:  # the newer client flavour: service request + public-key auth run on the caller's thread
+    if pk in (True, "ki-srt"):  # the newer client flavour: service request + public-key auth run on the caller's thread
         from paramiko.transport import ServiceRequestingTransport
 
         tc = ServiceRequestingTransport(sc, **kw)
@@ -257,7 +259,9 @@ def fuzz_session(victim, index, kind, seed, kex=None, banner=None, pk=False):
             c("start_client", lambda: tc.start_client(timeout=4))
             if not tc.is_active():
                 return
-            if pk:
+            if pk in ("ki", "ki-srt"):
+                c("auth_interactive", lambda: tc.auth_interactive("u", lambda t, i, p: ["pw"] * len(p)))
+            elif pk:
                 c("auth_publickey", lambda: tc.auth_publickey("u", lib_net.hostkey()))
             else:
                 c("auth_password", lambda: tc.auth_password("u", "pw"))
@@ -314,6 +318,87 @@ def fuzz_session(victim, index, kind, seed, kex=None, banner=None, pk=False):
     return events, info["type"], hung
 
 
+def gss_cases():
+    """GSS-API authentication with a stub mechanism whose calls fail on peer-supplied tokens (no GSS library is
+    installed; the stub's failure class stands for the library's GSSException).  Returns [(victim, where, exc)]."""
+    import paramiko.auth_handler as ah
+    import paramiko.transport as tr
+
+    class GssLibError(Exception):
+        pass
+
+    class StubGSS:
+        credentials_delegated = False
+
+        def __init__(self, *a, **k):
+            pass
+
+        def ssh_gss_oids(self, mode="client"):
+            from paramiko.message import Message
+
+            m = Message()
+            m.add_int(1)
+            m.add_string(b"\x06\x09*\x86H\x86\xf7\x12\x01\x02\x02")
+            return m.asbytes()
+
+        def ssh_check_mech(self, mech):
+            return True
+
+        def set_username(self, u):
+            pass
+
+        def ssh_get_mic(self, *a, **k):
+            return b"mic"
+
+        fail_client = False
+        fail_server = False
+
+        def ssh_init_sec_context(self, target, desired_mech=None, username=None, recv_token=None):
+            if StubGSS.fail_client:
+                raise GssLibError("mechanism rejected the server's token")
+            return b"client-token" if recv_token is None else None
+
+        def ssh_accept_sec_context(self, hostname, recv_token, username=None):
+            if StubGSS.fail_server:
+                raise GssLibError("mechanism rejected the client's token")
+            return None
+
+        def ssh_check_mic(self, *a, **k):
+            if StubGSS.fail_server:
+                raise GssLibError("bad mic")
+
+    saved = (ah.GSSAuth, tr.GSSAuth, ah.GSS_EXCEPTIONS)
+    ah.GSSAuth = tr.GSSAuth = StubGSS
+    ah.GSS_EXCEPTIONS = (GssLibError,)
+    out = []
+    try:
+        for victim in ("client", "server"):
+            StubGSS.fail_client = victim == "client"
+            StubGSS.fail_server = victim == "server"
+            srv = lib_net.BasicServer()
+            srv.enable_auth_gssapi = lambda: True
+            srv.get_allowed_auths = lambda u: "gssapi-with-mic,password"
+            tc, ts, sc, ss, srv = lib_net.make_pair(auth=False, server_iface=srv)
+            tc.auth_timeout = 4
+            try:
+                try:
+                    tc.auth_gssapi_with_mic("u", "host", True)
+                except BaseException as e:  # noqa
+                    if victim == "client":
+                        out.append((victim, "auth_gssapi_with_mic", e))
+                v = tc if victim == "client" else ts
+                lib_net.wait_until(lambda: False, 0.2)
+                e = v.get_exception()
+                if e is not None:
+                    out.append((victim, "get_exception", e))
+            finally:
+                tc.close()
+                ts.close()
+    finally:
+        ah.GSSAuth, tr.GSSAuth, ah.GSS_EXCEPTIONS = saved
+    return out
+
+
 def run(ctx):
     lib_net.quiet_logging()
     from paramiko.ssh_exception import SSHException
@@ -326,6 +411,12 @@ def run(ctx):
     ctx.assume("handlers/decoders are not modelled individually: which peer bytes make which handler fail is explored "
                "by fuzzing only; the theorem covers every class of failure raised in the transport thread",
                "failures raised on the application's own thread from peer data are covered by the fuzz oracle only")
+    from pv import lib_excsites
+    from pv.core import REPO
+
+    table, sites = lib_excsites.lean_table(REPO)
+    ctx.write_generated("C38", table)
+    ctx.extra["saved_exception_sites"] = sites
     ctx.build()
 
     # ---- (a) surfacing correspondence
@@ -349,6 +440,17 @@ def run(ctx):
                          "API %s handed the application an internal exception class" % a)
     ctx.sample({"surface_cases": len(reqs)})
 
+    # ---- (a') GSS-API authentication failing on peer tokens (stub mechanism)
+    from paramiko.ssh_exception import SSHException as _SSHE
+
+    for victim, where, e in gss_cases():
+        ctx.case(("gss", victim, where, type(e).__name__), True)
+        ctx.dist("gss:" + classify(e))
+        if not isinstance(e, (_SSHE, EOFError, OSError)):
+            ctx.fail("gss-library-error-surfaced:%s:%s" % (victim, where),
+                     {"victim": victim, "api": where, "scenario": "gssapi-with-mic, mechanism fails on the peer's token"},
+                     "%s handed the application %r" % (where, e))
+
     # ---- (b) structured fuzz
     n_idx = 14
     seeds = 3 if ctx.thorough else 1
@@ -365,6 +467,8 @@ def run(ctx):
                         jobs.append((victim, idx, kind, (ctx.seed, victim, idx, kind, s).__repr__(), kx, None, False))
                         if victim == "client" and kx is None and idx < 8:
                             jobs.append((victim, idx, kind, (ctx.seed, victim, idx, kind, s, "pk").__repr__(), kx, None, True))
+                            jobs.append((victim, idx, kind, (ctx.seed, victim, idx, kind, s, "ki").__repr__(), kx, None,
+                                         "ki" if (idx + s) % 2 == 0 else "ki-srt"))
         for b in BANNERS:
             jobs.append((victim, -1, "banner", "b", None, b, False))
     ctx.rng.shuffle(jobs)
@@ -409,7 +513,10 @@ def run(ctx):
 
 META = {
     "claimed": True,
-    "level": ("Partial. Proved in Lean: whatever exception class is raised inside the transport thread (packet reader, "
+    "level": ("Partial. Every assignment to saved_exception in the transport layer is translated from the AST into a "
+              "table on every run (lean/PV/Generated/C38.lean) and proved to store only allowed classes "
+              "(all_writers_store_allowed). "
+              "Proved in Lean: whatever exception class is raised inside the transport thread (packet reader, "
               "kex engine, any handler, any peer bytes), every reporting API (get_exception, start_client, open_channel, "
               "renegotiate_keys, auth wait, channel requests) surfaces an SSHException, EOFError or socket error; "
               "allowed classes pass through unchanged; witness for the old generic clause that leaked internal "
